@@ -118,6 +118,7 @@ func cmdCheck(args []string) {
 	prop := fs.String("prop", "", "property id")
 	tier := fs.String("tier", "quick", "quick|thorough")
 	update := fs.Bool("update-ledger", false, "record discharged obligations in the ledger")
+	force := fs.Bool("force-ledger", false, "rewrite the ledger even if obligations of the old ledger are missing (after renaming)")
 	jobs := fs.Int("jobs", 16, "parallel queries")
 	fs.Parse(args)
 	if *prop == "" {
@@ -145,6 +146,7 @@ func cmdCheck(args []string) {
 	}
 	P.OutDir = outDir
 	P.Specs = loadSpecs(findSpecFiles(*repo, *verif))
+	P.bindActions()
 	U := newUniverse()
 
 	var fns []*ssa.Function
@@ -354,7 +356,7 @@ func cmdCheck(args []string) {
 		fmt.Printf("  obligation: %s\n  reason: %s\n", v.name, v.reason)
 	}
 
-	if *update && nviol == 0 {
+	if *update && (nviol == 0 || *force) {
 		nl := &LedgerProp{Obligations: map[string]*LedgerEntry{}, NoPanicFuncs: map[string]int{}}
 		k1ok := map[string]bool{}
 		k1n := map[string]int{}
